@@ -30,6 +30,10 @@ pub struct RandomState(u64);
 
 impl Default for RandomState {
     fn default() -> Self {
+        #[cfg(feature = "verif-hooks")]
+        if let Some(salt) = crate::verif::salt() {
+            return Self(salt);
+        }
         let mut rng = rand::rng();
         Self(rng.random())
     }
